@@ -5,6 +5,15 @@
   * C07Kernel — exact detector kernel (binomial theorem, product over modes, closed form)
   * C07Cdf    — inverse-CDF selection
   * C07Sample — tape-driven detector, acceptance, the sampling loops
+  Limit statements (law of large numbers, laws under an ideal uniform tape):
+  * C07LimitGrid, C07LimitGridTendsto — equidistribution of inverse-CDF selection on the uniform grid
+  * C07LimitReal  — real twin `inverseCdfR`, interval form, measurability, push-forward of U[0,1)
+  * C07LimitLLN   — strong law for the selection step
+  * C07LimitState — `sampleOne` = state at the selected index; strong law for states
+  * C07LimitDetG       — closed form of the tape-driven detector, real twin, agreement on rational tapes
+  * C07LimitDetComb    — expectation over independent bits; bit-tape law = exact kernel
+  * C07LimitDetLaw     — law of the detected state on an i.i.d. uniform tape
+  * C07LimitExample — non-vacuity (an ideal tape exists; concrete instances)
 -/
 import Mathlib.Algebra.Order.Field.Basic
 import Mathlib.Algebra.Order.Field.Rat
@@ -15,6 +24,10 @@ import LW.Proofs.C07Merge
 import LW.Proofs.C07Kernel
 import LW.Proofs.C07Cdf
 import LW.Proofs.C07Sample
+import LW.Proofs.C07LimitGridTendsto
+import LW.Proofs.C07LimitState
+import LW.Proofs.C07LimitDetLaw
+import LW.Proofs.C07LimitExample
 
 namespace LW.Proofs.C07
 
